@@ -5,6 +5,7 @@ import (
 	"strings"
 
 	"github.com/consensys/gnark-crypto/ecc"
+	"github.com/consensys/gnark/constraint"
 	"github.com/consensys/gnark/frontend"
 	"github.com/consensys/gnark/frontend/cs/r1cs"
 	"github.com/consensys/gnark/frontend/cs/scs"
@@ -14,6 +15,7 @@ import (
 	"verifharness/engine"
 	"verifharness/fw"
 	"verifharness/gadget"
+	"verifharness/harn"
 	"verifharness/inst"
 )
 
@@ -25,7 +27,8 @@ func gnarkIsSolved(c, a frontend.Circuit) (err error) {
 			err = fmt.Errorf("panic: %v", trunc(fmt.Sprint(r), 200))
 		}
 	}()
-	return test.IsSolved(c, a, ecc.BN254.ScalarField())
+	harn.Protect(func() { err = test.IsSolved(c, a, ecc.BN254.ScalarField()) })
+	return err
 }
 
 func init() {
@@ -200,7 +203,9 @@ func init() {
 					if c.Str("sys") == "scs" {
 						nb = scs.NewBuilder
 					}
-					ccs, err := frontend.Compile(ecc.BN254.ScalarField(), nb, mk(in.Clone()))
+					var ccs constraint.ConstraintSystem
+					var err error
+					harn.Protect(func() { ccs, err = frontend.Compile(ecc.BN254.ScalarField(), nb, mk(in.Clone())) })
 					if err != nil {
 						return fw.Violate("compile_fails_on_valid_template:"+c.Str("sys"), fmt.Sprintf("case %s: %v", c.ID, trunc(err.Error(), 200)))
 					}
